@@ -78,6 +78,12 @@ CHECKS["C04"] = dict(
     technique="Lean 4 proof (definitional unfolding of the draw + loop lemma lifted through the simulation invariant); per-draw glyph count/position oracle on real bytes",
     ref="§5 C04")
 
+CHECKS["C12"] = dict(
+    text="Model level (Lean): for any family of objects whose steps touch only their own state, every schedule that interleaves their operation scripts gives each object exactly the outputs and final state of its solo run (induction over schedules); instantiated for the terminal encoder. That the code has this shape is (i) a regenerated proof obligation - the inventory of all static-storage objects in writable sections of the library built from the working tree (nm), each matched to its source declaration, must be const/constexpr (no_mutable_statics, decided by the kernel on every run; a new mutable static or cache breaks it and is named) - and (ii) execution: sets of 2-8 terminals/screens/one-shot objects alive at once, run round-robin and under seeded random interleavings (ASan+UBSan) and concurrently one thread per object (ThreadSanitizer); each object's bytes, tokens and state records must equal its solo run and the model. Partial for schedules: TSan explores, it does not prove data-race freedom.",
+    note="Lean kernel; axioms propext/Quot.sound; the statics matcher (vlib/statics.py: nm -f sysv + regex over the sources) is unverified tooling; thread schedules are whatever the OS produces in the TSan runs; the C++ memory model is outside the Lean model.",
+    technique="Lean 4 interleaving theorem + regenerated static-storage inventory as proof obligation + interleaved/concurrent differential execution (ASan, TSan)",
+    ref="§5 C12")
+
 NOT_YET = {}
 
 
